@@ -105,8 +105,12 @@ def schcOp (toks : List String) : Option String :=
       let ps ← factory pid; let c ← managerCompress ps rs pk d st; let dd ← managerDecompress rs c (some d); pure (c, dd)))
   | "umcompress" :: rest => do
     let (spec, rs, pk, d, st) ← runP (do let spec ← tok; let rs ← pRules; let pk ← pABuf; let d ← pDir; let st ← pStrategy; pEnd; pure (spec, rs, pk, d, st)) rest
-    let ps ← stackOfSpec spec
-    pure (showPy showABuf (managerCompress ps rs pk d st))
+    -- `id=<registry id>`: `ContextManager(context, parser=<str>)`, the parser comes from `factory`
+    if spec.startsWith "id=" then
+      pure (showPy showABuf (do let ps ← factory (unesc (spec.drop 3).toString); managerCompress ps rs pk d st))
+    else
+      let ps ← stackOfSpec spec
+      pure (showPy showABuf (managerCompress ps rs pk d st))
   | "uroundtrip" :: rest => do
     -- explicit (possibly semantic) stack; rule by recipe from the parsed fields; decompress WITH the parser as unparser
     let (spec, recipe, rid, pk, d) ← runP (do let spec ← tok; let recipe ← tok; let rid ← pABuf; let pk ← pABuf; let d ← pDirOpt; pEnd; pure (spec, recipe, rid, pk, d)) rest
